@@ -83,7 +83,17 @@ var registry = map[string]any{"SUM8": algo8{"SUM8"}, "CRC16": algo16{"CRC16"}, "
 	"Xor8": algo8{"Xor8"}, "Add16": algo16{"Add16"}, "Mix32": algo32{"Mix32"}, "Mix64": algo64{"Mix64"}}
 
 func Register(name string, s any) { registry[name] = s }
-func Get(name string) (any, bool) { s, ok := registry[name]; return s, ok }
+// monitor side: the driver empties / restores the registry between encodes (case kind U)
+var registryEnabled = true
+
+func VerifSetRegistryEnabled(on bool) { registryEnabled = on }
+func Get(name string) (any, bool) {
+	if !registryEnabled {
+		return nil, false
+	}
+	s, ok := registry[name]
+	return s, ok
+}
 
 func order(o binary.ByteOrder) string {
 	if o == binary.ByteOrder(binary.LittleEndian) {
